@@ -39,6 +39,7 @@ def r13_b(ctx):
         rr.fail(Finding('R13.b', 'utils', fd.qual, node, msg, line=getattr(node, 'lineno', 0)))
 
     def method(name):
+        from .model import effective_method
         fds = tok.methods.get(name)
         if not fds:
             # name-mangled private helper
@@ -46,7 +47,8 @@ def r13_b(ctx):
                 if k.lstrip('_') == name.lstrip('_') and k.startswith('__') and not k.endswith('__'):
                     return v[-1]
             raise AnalysisError('Token.%s vanished' % name)
-        return fds[-1]
+        # delegations to a private helper are seen through
+        return effective_method(tok, fds[-1])
 
     # concatenation
     for name in ('__add__', '__iadd__'):
@@ -98,7 +100,7 @@ def r13_b(ctx):
         elif not ok_txt:
             fail(fd, c, 'Token.join does not join the texts of the tokens in order')
     # iteration
-    fd = method('__iter')
+    fd = method('__iter__')
     se = SymEval(fd.node)
     loops = [n for n in ast.walk(fd.node) if isinstance(n, ast.For)]
     ok_loop = len(loops) == 1 and isinstance(loops[0].iter, ast.Call) and norm(loops[0].iter.func) == 'enumerate' \
@@ -296,8 +298,20 @@ def r13_f(ctx):
     rr.ob(tab is not None, {'break_table': tab})
     if tab is None:
         raise AnalysisError('CharToLineOffset: table of line-break offsets not recognised')
+    # local aliases of the table (`breaks = self.<table>`) are read through
+    aliases = {n.targets[0].id for n in ast.walk(fd.node) if isinstance(n, ast.Assign) and len(n.targets) == 1
+               and isinstance(n.targets[0], ast.Name) and norm(n.value) == 'self.%s' % tab}
+    aliases = {a for a in aliases if sum(1 for n in ast.walk(fd.node) if isinstance(n, ast.Name) and n.id == a
+                                         and isinstance(n.ctx, ast.Store)) == 1}
+
+    def tnorm(e):
+        t = norm(e)
+        for a in aliases:
+            import re as _re
+            t = _re.sub(r'(?<![\w.])%s(?![\w])' % _re.escape(a), 'self.%s' % tab, t)
+        return t
     calls = [n for n in ast.walk(fd.node) if isinstance(n, ast.Call) and norm(n.func).startswith('bisect')
-             and len(n.args) == 2 and norm(n.args[0]) == 'self.%s' % tab and norm(n.args[1]) == p]
+             and len(n.args) == 2 and tnorm(n.args[0]) == 'self.%s' % tab and norm(n.args[1]) == p]
     if not calls:
         raise AnalysisError('CharToLineOffset.__call__: line look-up not recognised')
     for c in calls:
@@ -314,14 +328,100 @@ def r13_f(ctx):
     for n in ast.walk(fd.node):
         if isinstance(n, ast.Assign) and n.value in calls and isinstance(n.targets[0], ast.Name):
             line_var = n.targets[0].id
+    # every result takes its line from that one search
+    stores = sum(1 for n in ast.walk(fd.node) if isinstance(n, ast.Name) and isinstance(n.ctx, ast.Store) and n.id == line_var)
+    for n in ast.walk(fd.node):
+        if isinstance(n, ast.Return):
+            v = n.value
+            first = v.elts[0] if isinstance(v, ast.Tuple) and v.elts else None
+            ok_r = first is not None and ((isinstance(first, ast.Name) and first.id == line_var and stores == 1) or first in calls)
+            if not ok_r:
+                raise AnalysisError('CharToLineOffset.__call__: the result `%s` (utils.py:%d) does not take its line from '
+                                    'the table search; caches and other shortcuts are outside the decidable subset of '
+                                    'R13.f' % (norm(v)[:50] if v is not None else 'None', n.lineno))
+
+    class _E:
+        def __init__(self, value):
+            self.value = value
     cols = []
     for n in ast.walk(fd.node):
-        if isinstance(n, ast.Assign) and isinstance(n.targets[0], ast.Name) and isinstance(n.value, ast.BinOp) \
-                and 'self.%s[' % tab in norm(n.value):
-            cols.append(n)
-    okc = any(norm(n.value).replace(' ', '') == ('%s-self.%s[%s-1]-1' % (p, tab, line_var)).replace(' ', '') for n in cols)
+        if isinstance(n, ast.BinOp) and 'self.%s[' % tab in tnorm(n) and not isinstance(getattr(n, '_parent', None), ast.BinOp):
+            cols.append(_E(n))
+    okc = any(tnorm(n.value).replace(' ', '') == ('%s-self.%s[%s-1]-1' % (p, tab, line_var)).replace(' ', '') for n in cols)
     rr.ob(okc, {'column': [norm(n.value) for n in cols]})
     if not okc:
-        rr.fail(Finding('R13.f', 'utils', fd.qual, cols[0] if cols else 'column arithmetic', 'the column is not the distance '
+        rr.fail(Finding('R13.f', 'utils', fd.qual, cols[0].value if cols else 'column arithmetic', 'the column is not the distance '
                         'from the character after the previous line break', line=fd.node.lineno))
+    return rr
+
+
+def r13_g(ctx):
+    """node classes keep the position they are constructed with: stored / handed to the base constructor unchanged,
+    and the node view reads that field"""
+    repo = ctx.repo
+    data = repo.modules['data']
+    rr = RuleResult('R13.g', 'every expression class stores the `position` it is constructed with as it is (or hands it to '
+                    'its base constructor unchanged), and the node\'s position is that field: no default-substitution, '
+                    'arithmetic or truth test on the offset (offset 0 is a valid position)', floor=5)
+    n_cls = 0
+    for c in data.classes.values():
+        fds = c.methods.get('__init__')
+        if not fds:
+            continue
+        fd = fds[-1]
+        allp = [a.arg for a in fd.node.args.args + fd.node.args.kwonlyargs]
+        if 'position' not in allp:
+            continue
+        n_cls += 1
+        uses = []      # (node, expr, how)
+        for n in ast.walk(fd.node):
+            if isinstance(n, ast.Assign) and any(isinstance(t, ast.Attribute) and t.attr == 'position' and norm(t.value) == 'self'
+                                                 for t in n.targets):
+                uses.append((n, n.value, 'stored'))
+            elif isinstance(n, ast.Call) and isinstance(n.func, ast.Attribute) and n.func.attr == '__init__' \
+                    and isinstance(n.func.value, ast.Call) and norm(n.func.value.func) == 'super':
+                # which argument reaches the base class's `position` parameter?
+                base = None
+                for b in c.mro[1:] if getattr(c, 'mro', None) else []:
+                    if hasattr(b, 'methods') and b.methods.get('__init__'):
+                        base = b.methods['__init__'][-1]
+                        break
+                expr = None
+                for k in n.keywords:
+                    if k.arg == 'position':
+                        expr = k.value
+                if expr is None and base is not None:
+                    bp = base.params()[1:]
+                    if 'position' in bp and bp.index('position') < len(n.args) and not any(isinstance(a, ast.Starred) for a in n.args):
+                        expr = n.args[bp.index('position')]
+                if expr is not None:
+                    uses.append((n, expr, 'handed to the base constructor'))
+        # rebinding of the parameter before use
+        rebinds = [n for n in ast.walk(fd.node) if isinstance(n, ast.Name) and n.id == 'position' and isinstance(n.ctx, ast.Store)]
+        ok = bool(uses) and all(isinstance(e, ast.Name) and e.id == 'position' for _, e, _ in uses) and not rebinds
+        rr.ob(ok, {'class': c.name, 'position': [how for _, _, how in uses]})
+        if not ok:
+            bad = [(n, e, how) for n, e, how in uses if not (isinstance(e, ast.Name) and e.id == 'position')]
+            node = bad[0][0] if bad else (rebinds[0]._parent if rebinds and hasattr(rebinds[0], '_parent') else fd.node.name)
+            what = ('%s as `%s`' % (bad[0][2], norm(bad[0][1])[:40])) if bad else (
+                'rebound before use' if rebinds else 'neither stored nor handed on')
+            rr.fail(Finding('R13.g', 'data', fd.qual, node, 'the constructor of %s does not keep the position it is given '
+                            '(%s): nodes record an offset that is not that of their first character -- e.g. `position or '
+                            'default` turns the valid offset 0 into the default' % (c.name, what),
+                            line=getattr(node, 'lineno', fd.node.lineno)))
+    if n_cls == 0:
+        raise AnalysisError('no expression class takes a position')
+    # the node view
+    node_cls = repo.need_cls('data.TexNode')
+    owner, kind, payload = node_cls.lookup('position')
+    if kind == 'property':
+        g = payload['getter']
+        rets = [n for n in ast.walk(g.node) if isinstance(n, ast.Return)]
+        ok = len(rets) == 1 and norm(rets[0].value) == 'self.expr.position'
+        rr.ob(ok, {'TexNode.position': norm(rets[0].value) if rets else None})
+        if not ok:
+            rr.fail(Finding('R13.g', 'data', g.qual, rets[0] if rets else 'TexNode.position', 'the node\'s position is not the '
+                            'position stored in its expression', line=g.node.lineno))
+    else:
+        raise AnalysisError('TexNode.position is no longer a property')
     return rr
